@@ -25,13 +25,14 @@ import (
 // race detector; a wrong order is detected from the values alone.
 
 type FreeCase struct {
-	N     int      `json:"n"`
-	Deps  [][]int  `json:"deps"`
-	Deps2 [][]int  `json:"deps2,omitempty"` // second graph over the same tasks (shared-task check)
-	Mode  string   `json:"mode"`
-	Max   int      `json:"max,omitempty"`
-	Spin  []int    `json:"spin"`
-	Out   []string `json:"out,omitempty"` // per task: ok | err | skip (free-running termination check)
+	N           int      `json:"n"`
+	Deps        [][]int  `json:"deps"`
+	Deps2       [][]int  `json:"deps2,omitempty"` // second graph over the same tasks (shared-task check)
+	Mode        string   `json:"mode"`
+	SerialExtra int      `json:"serial_extra,omitempty"`
+	Max         int      `json:"max,omitempty"`
+	Spin        []int    `json:"spin"`
+	Out         []string `json:"out,omitempty"` // per task: ok | err | skip (free-running termination check)
 	// Placeholder: per task, the first graph first learns the id through a different Task object and is
 	// then given the shared one by a second AddTask (shared-task check)
 	Placeholder []bool `json:"placeholder,omitempty"`
@@ -75,6 +76,12 @@ func genFree(t *rapid.T, modes []string, maxN int, second bool) *FreeCase {
 	if c.Mode == "max" {
 		c.Max = rapid.IntRange(1, n).Draw(t, "max")
 	}
+	if c.Mode == "serial" && chance(t, "serialextra", 35) {
+		c.SerialExtra = rapid.IntRange(2, n+2).Draw(t, "serialextralimit")
+		if chance(t, "limitfirst", 50) {
+			c.SerialExtra = -c.SerialExtra
+		}
+	}
 	c.Spin = rapid.SliceOfN(rapid.SampledFrom([]int{0, 1, 10, 100, 1000, 5000}), n, n).Draw(t, "spin")
 	return c
 }
@@ -82,12 +89,7 @@ func genFree(t *rapid.T, modes []string, maxN int, second bool) *FreeCase {
 func buildFree(name string, c *FreeCase, deps [][]int, tasks []*dag.Task) *dag.Graph {
 	g := dag.NewGraph(name)
 	g.TickerDuration = time.Microsecond
-	switch c.Mode {
-	case "serial":
-		g.SetSerial()
-	case "max":
-		g.SetMaxParallel(c.Max)
-	}
+	ApplyMode(g, c.Mode, c.Max, c.SerialExtra)
 	for i := 0; i < c.N; i++ {
 		g.AddTask(tasks[i])
 	}
@@ -770,8 +772,140 @@ func init() {
 	freeRerun.register()
 	freeSharedOrder.register()
 	freeStagesCycle.register()
+	sharedWriter.register()
 }
 
 func TestC13_free(t *testing.T)        { freeOrder.run(t) }
 func TestC15_freecounter(t *testing.T) { freeCounter.run(t) }
 func TestC15_shared(t *testing.T)      { freeShared.run(t) }
+
+// --- C15: with buffering on, every attempt's output is one contiguous block even when several graphs that run
+// at the same moment report to the same (synchronised, like os.Stdout) writer, whatever their modes ---
+
+type lockedSink struct {
+	mu  sync.Mutex
+	buf []byte
+}
+
+func (w *lockedSink) Write(p []byte) (int, error) {
+	w.mu.Lock()
+	w.buf = append(w.buf, p...)
+	w.mu.Unlock()
+	return len(p), nil
+}
+
+func checkSharedWriter(c *FreeCase) error {
+	const frags = 4
+	w := &lockedSink{}
+	var failed sync.Map // "<g><task>" -> attempt counter
+	mkTasks := func(gname string) []*dag.Task {
+		ts := make([]*dag.Task, c.N)
+		for i := 0; i < c.N; i++ {
+			i := i
+			ts[i] = dag.NewTask(taskID(i), func(ctx context.Context, opt *getoptions.GetOpt, args []string) error {
+				key := gname + taskID(i)
+				v, _ := failed.LoadOrStore(key, new(int32))
+				a := atomic.AddInt32(v.(*int32), 1) - 1
+				for j := 0; j < frags; j++ {
+					out := dag.Stdout(ctx)
+					if j%2 == 1 {
+						out = dag.Stderr(ctx)
+					}
+					fmt.Fprintf(out, "%s#%d:%d;", key, a, j)
+					spin(c.Spin[i] / 4)
+					runtime.Gosched()
+				}
+				if a == 0 && i < len(c.Out) && c.Out[i] == "err" {
+					return fmt.Errorf("first attempt of %s fails", key)
+				}
+				return nil
+			})
+		}
+		return ts
+	}
+	build := func(name, mode string, max, extra int, deps [][]int) *dag.Graph {
+		g := dag.NewGraph(name)
+		g.TickerDuration = time.Microsecond
+		ApplyMode(g, mode, max, extra)
+		g.SetOutputBuffer(w)
+		ts := mkTasks(name)
+		for i := 0; i < c.N; i++ {
+			g.AddTask(ts[i])
+			if i < len(c.Out) && c.Out[i] == "err" {
+				g.TaskRetries(ts[i], 1)
+			}
+		}
+		for i := 0; i < c.N; i++ {
+			for _, d := range deps[i] {
+				g.TaskDependsOn(ts[i], ts[d])
+			}
+		}
+		return g
+	}
+	mode2, max2 := "parallel", 0
+	if c.Max2 > 0 {
+		mode2, max2 = "max", c.Max2
+	}
+	g1 := build("A", c.Mode, c.Max, c.SerialExtra, c.Deps)
+	g2 := build("B", mode2, max2, 0, c.Deps2)
+	var wg sync.WaitGroup
+	errs := make([]error, 2)
+	oks := make([]bool, 2)
+	for k, g := range []*dag.Graph{g1, g2} {
+		k, g := k, g
+		wg.Add(1)
+		go func() { defer wg.Done(); errs[k], oks[k] = runBounded(g) }()
+	}
+	wg.Wait()
+	if !oks[0] || !oks[1] {
+		return fmt.Errorf("inconclusive: Run did not return within 30s")
+	}
+	if errs[0] != nil || errs[1] != nil {
+		return fmt.Errorf("Run returned %v / %v although every task succeeds at its last attempt", errs[0], errs[1])
+	}
+	w.mu.Lock()
+	text := string(w.buf)
+	w.mu.Unlock()
+	parts := strings.Split(strings.TrimSuffix(text, ";"), ";")
+	want := 0
+	for _, gname := range []string{"A", "B"} {
+		for i := 0; i < c.N; i++ {
+			want += frags
+			if i < len(c.Out) && c.Out[i] == "err" {
+				want += frags
+			}
+			_ = gname
+		}
+	}
+	if len(parts) != want {
+		return fmt.Errorf("writer received %d fragments, the attempts wrote %d (output lost or duplicated): %q", len(parts), want, text)
+	}
+	for b := 0; b+frags <= len(parts); b += frags {
+		head := strings.SplitN(parts[b], ":", 2)[0]
+		for j := 0; j < frags; j++ {
+			if parts[b+j] != fmt.Sprintf("%s:%d", head, j) {
+				return fmt.Errorf("output of attempt %s is not one contiguous block: fragment %d of the writer's content is %q, expected %q (graph A mode %s limit %d extra %d, graph B mode %s limit %d); content: %q", head, b+j, parts[b+j], fmt.Sprintf("%s:%d", head, j), c.Mode, c.Max, c.SerialExtra, mode2, max2, text)
+			}
+		}
+	}
+	return nil
+}
+
+var sharedWriter = &freeProp{ID: "C15", Sub: "shared-writer",
+	Rule: "free-running: two graphs (A: generated mode incl. serial and serial combined with a limit; B: parallel or limited) with SetOutputBuffer on the SAME mutex-protected writer run concurrently; every attempt (some tasks fail once and are retried) writes 4 tagged fragments alternating between dag.Stdout and dag.Stderr with yields in between; the writer's content must be a concatenation of whole per-attempt blocks, nothing lost or duplicated; distinct by case",
+	Gen: func(t *rapid.T) *FreeCase {
+		c := genFree(t, []string{"serial", "serial", "max", "parallel"}, 6, true)
+		c.Max2 = rapid.IntRange(0, 4).Draw(t, "max2")
+		c.Out = make([]string, c.N)
+		for i := range c.Out {
+			c.Out[i] = "ok"
+			if chance(t, "failsonce", 20) {
+				c.Out[i] = "err"
+			}
+		}
+		return c
+	},
+	Check: checkSharedWriter,
+}
+
+func TestC15_sharedwriter(t *testing.T) { sharedWriter.run(t) }
